@@ -41,6 +41,11 @@ def amuset_case(draw):
     for _ in range(p):
         f = [{'family': 'constant', 'index': 0}] + [c15.fn_spec(draw, d) for _ in range(draw(st.integers(1, 3)))]
         phi.append(f)
+    homogeneous = d >= 2 and p <= 3 and draw(st.sampled_from([False, False, False, False, True]))
+    if homogeneous:
+        # coordinate functions only (no constant): the transformed data tensor is homogeneous of degree p in the data, so data of size
+        # 1e-7 / 1e-9 give a tensor of size 1e-14 ... 1e-27 with unchanged singular-value RATIOS
+        phi = [[{'family': 'identity', 'index': i} for i in draw(st.lists(st.integers(0, d - 1), min_size=2, max_size=d, unique=True))] for _ in range(p)]
     npairs = draw(st.sampled_from([1, 1, 2, 3]))
     pairs = []
     for _ in range(npairs):
@@ -73,7 +78,12 @@ def amuset_case(draw):
             'extras': draw(st.sampled_from(['none', 'none', 'ef', 'st', 'both'])),
             # the same basis-function objects have been used before, in a call on another data matrix (several trajectories analysed
             # one after the other with one basis list)
-            'basis_used_before': draw(st.sampled_from([False, False, True]))}
+            'basis_used_before': draw(st.sampled_from([False, False, True])),
+            # HOCUR variant with a binding cap on the ranks (an approximation: nothing is claimed about its eigenvalues, but the result
+            # for a pair in a list is still the result for that pair alone, and a second identical call returns the same)
+            # data in other units (coordinates of size 1e-7 or 1e3): every cut is relative, the oracle is computed from the same data
+            'x_scale_exp': (draw(st.sampled_from([-9, -7, -7, 3, 0])) if homogeneous else draw(st.sampled_from([0, 0, 0, -7, -4, 3]))) if form == 'float' else 0,
+            'hocur_cap': draw(st.sampled_from([None, None, None, 2, 3, 4])) if variant == 'hocur' else None}
 
 
 def reference(Psi, xi, yi):
@@ -115,11 +125,15 @@ def run(c, x, phi, xi_list, yi_list):
         require(isinstance(out, tuple) and len(out) == {'none': 2, 'ef': 3, 'st': 4, 'both': 5}[extras], 'batch_shape',
                 'amuset_hosvd returned %d outputs with extras=%s' % (len(out) if isinstance(out, tuple) else -1, extras))
         return out[0], out[1]
+    if c.get('hocur_cap'):
+        return tedmd.amuset_hocur(x, xi_list, yi_list, phi, max_rank=c['hocur_cap'], multiplier=2, **kw)
     return tedmd.amuset_hocur(x, xi_list, yi_list, phi, max_rank=1000, multiplier=3, **kw)
 
 
 def body(c):
     x = c15.data(c)
+    if c.get('x_scale_exp', 0) and c.get('data_form', 'float') == 'float':
+        x = np.asarray(x, dtype=float) * 10.0 ** c['x_scale_exp']
     m = c['m']
     phi = [[c15.make_fn(s) for s in f] for f in c['phi']]
     nmodes = [len(f) for f in phi]
@@ -171,11 +185,27 @@ def body(c):
         lab.add('multi_mode')
     if c.get('data_form', 'float') != 'float':
         lab.add('data_' + c['data_form'])
+    if c.get('x_scale_exp', 0) and c.get('data_form', 'float') == 'float':
+        lab.add('rescaled_data')
     if c['variant'] == 'hosvd' and c.get('extras', 'none') != 'none':
         lab.add('extra_outputs_' + c['extras'])
     if any(s_['family'] in c15.USER_FAMS for f in c['phi'] for s_ in f):
         lab.add('user_defined_function')
+    capped = bool(c['variant'] == 'hocur' and c.get('hocur_cap'))
+    if capped:
+        lab.add('hocur_rank_cap')
+        # determinism: the same call once more
+        e2, t2 = run(c, x, phi, list(X), list(Y)) if (len(pairs) > 1 or c['as_list']) else run(c, x, phi, X[0], Y[0])
+        if not isinstance(e2, list):
+            e2, t2 = [e2], [t2]
+        for j in range(len(evs)):
+            a_, b_ = np.asarray(evs[j]), np.asarray(e2[j])
+            require(a_.shape == b_.shape, 'repeatable', 'second identical call: %s eigenvalues, first call %s' % (b_.shape, a_.shape))
+            close(b_, a_, 1e-9, max(float(np.max(np.abs(a_))) if a_.size else 0.0, 1e-300), 'repeatable', 'eigenvalues of pair %d in a second identical call' % j)
     for j, ((lam, K, k), ev, et) in enumerate(zip(refs, evs, ets)):
+        if capped:
+            require_consistent(et, 'consistent')
+            continue
         ev = np.asarray(ev)
         lmax = max(np.max(np.abs(lam)), 1e-8)
         require(ev.ndim == 1 and ev.shape[0] == k and np.all(np.isreal(ev)), 'eigenvalue_count', 'pair %d: got %s eigenvalues, expected %d real numbers' % (j, ev.shape, k))
